@@ -405,6 +405,15 @@ Definition query_spec (F : file) (o : op) : answer :=
       end
   | RefetchDwarf => ADone
   | DIEAtOutside _ _ => AErr EDwarf
+  | LineEntriesFailing u e _ =>
+      match unit_at F u with
+      | Some ud =>
+          match dr_stmt (node_raw (ud_tree ud)) with
+          | None => ANone
+          | Some off => match zassoc off (f_lines F) with Some _ => AErr e | None => AErr EParse end
+          end
+      | None => AErr EParse
+      end
   | CUAtFailing _ e _ => AErr e
   end.
 
@@ -643,6 +652,7 @@ Definition valid_op (F : file) (o : op) : bool :=
       | Some ud => (o <? ud_die_off ud) || (ud_off ud + uh_size (ud_hdr ud) <=? o)
       | None => false
       end
+  | LineEntriesFailing u _ _ => has_unit F u
   | CUAtFailing off _ _ => negb (has_unit F off)
   end.
 
